@@ -11,7 +11,8 @@ RULE = ("subvalue / subgraph / normalize (functions and methods) on plain dicts,
         "values outside the variable's domain, e.g. 2 or 0.5) or sympy symbols; node sets and connection maps of any "
         "size; normalize values {1, 2, .5, -3}. Oracle: exact substitution in the reference polynomial (sympy results "
         "compared after numeric substitution of the symbols at three points). Non-trivial = model with >= 2 terms and "
-        "a non-empty assignment / node set; distinct = digest of (function, type, terms, arguments)")
+        "a non-empty assignment / node set; distinct = digest of (function, type, terms, arguments)"
+        ' Also: values / connections given as defaultdict, Counter, OrderedDict, MappingProxyType, ChainMap, UserDict (and their immutability), sympy-number and narrow numpy (int8 / uint8 / float32) coefficients, plain-polynomial dicts with repeated labels, removal of the largest term with a dict mutator followed by the same normalisation, second call after result edits.')
 TIERS = {"quick": {"shards": 8, "cases": 4000}, "thorough": {"shards": 16, "cases": 40000}}
 FLOOR_BASE = {"quick": 400, "thorough": 10000}    # case counts the floors below were calibrated for; the launcher scales them
 ALLT = ["dict", "DictArithmetic", "QUBO", "PUBO", "PCBO", "QUBOMatrix", "PUBOMatrix", "QUSO", "PUSO", "PCSO", "QUSOMatrix", "PUSOMatrix"]
